@@ -53,6 +53,10 @@ fn real_main(args: &[String]) -> i32 {
         // every process that runs the crate under test
         report::limit_memory();
     }
+    if cmd.starts_with("c14-") {
+        // relative logo file names resolve against a directory of this process's own
+        spec::enter_logo_cwd();
+    }
     match cmd.as_str() {
         "C14" | "C19" => {
             if rest.first().map(|s| s.as_str()) == Some("--replay") {
